@@ -11,12 +11,14 @@
 package main
 
 import (
+	"bytes"
 	"context"
 	"encoding/json"
 	"errors"
 	"flag"
 	"fmt"
 	"math/big"
+	"math/rand"
 	"os"
 	"runtime"
 	"sort"
@@ -27,6 +29,7 @@ import (
 	"bufio"
 
 	ledger "github.com/formancehq/ledger/internal"
+	"github.com/formancehq/ledger/internal/engine/command"
 	"github.com/formancehq/ledger/internal/machine"
 	"github.com/formancehq/ledger/internal/machine/script/compiler"
 	"github.com/formancehq/ledger/internal/machine/vm"
@@ -214,6 +217,16 @@ func classify(err error) string {
 	return "other:" + err.Error()
 }
 
+// phase gives errors without a class of their own the class of the phase that reported them
+func phase(class, fallback string) string {
+	if strings.HasPrefix(class, "other:") {
+		return fallback
+	}
+	return class
+}
+
+var sharedCompiler = command.NewCompiler(4096)
+
 type rawOutcome struct {
 	class string
 	posts []ledger.Posting
@@ -222,6 +235,10 @@ type rawOutcome struct {
 }
 
 func execute(text string, vars map[string]string, store vm.Store) (out rawOutcome) {
+	return executeWithMeta(text, vars, store, nil)
+}
+
+func executeWithMeta(text string, vars map[string]string, store vm.Store, scriptMeta metadata.Metadata) (out rawOutcome) {
 	done := make(chan rawOutcome, 1)
 	go func() {
 		defer func() {
@@ -229,8 +246,10 @@ func execute(text string, vars map[string]string, store vm.Store) (out rawOutcom
 				done <- rawOutcome{class: "panic:" + fmt.Sprint(e)}
 			}
 		}()
-		prog, err := compiler.Compile(text)
+		// through the engine's compilation cache: a text executed twice runs the same cached program
+		prog, err := sharedCompiler.Compile(text)
 		if err != nil {
+			_ = err.Error() // the engine reports the message to the client: rendering it must not crash either
 			done <- rawOutcome{class: "compile-error"}
 			return
 		}
@@ -244,14 +263,14 @@ func execute(text string, vars map[string]string, store vm.Store) (out rawOutcom
 			return
 		}
 		if _, _, err := m.ResolveResources(context.Background(), store); err != nil {
-			done <- rawOutcome{class: classify(err)}
+			done <- rawOutcome{class: phase(classify(err), "resolve-error")}
 			return
 		}
 		if err := m.ResolveBalances(context.Background(), store); err != nil {
-			done <- rawOutcome{class: classify(err)}
+			done <- rawOutcome{class: phase(classify(err), "resolve-error")}
 			return
 		}
-		res, err := vm.Run(m, ledger.RunScript{Script: ledger.Script{Plain: text, Vars: vars}})
+		res, err := vm.Run(m, ledger.RunScript{Script: ledger.Script{Plain: text, Vars: vars}, Metadata: scriptMeta})
 		if err != nil {
 			done <- rawOutcome{class: classify(err)}
 			return
@@ -389,22 +408,47 @@ func main() {
 	in := flag.String("in", "", "cases (ndjson written by TLC)")
 	out := flag.String("out", "", "results (ndjson)")
 	stats := flag.String("stats", "", "stats (json)")
+	corruptN := flag.Int("corrupt", 0, "instead of the cases themselves, run this many corrupted renderings of their texts")
+	seed := flag.Int64("seed", 1, "seed of the corruptions")
+	cacheMode := flag.Bool("cache", false, "replay Cache.tla request sequences on command.Compiler")
 	flag.Parse()
+	if *cacheMode {
+		runCache(*in, *out, *stats)
+		return
+	}
 	f, err := os.Open(*in)
 	if err != nil {
 		fmt.Fprintln(os.Stderr, err)
 		os.Exit(2)
 	}
 	var cases []Case
+	var progs []ProgCase
 	sc := bufio.NewScanner(f)
 	sc.Buffer(make([]byte, 1<<20), 1<<26)
 	for sc.Scan() {
+		if bytes.Contains(sc.Bytes(), []byte(`"prog":`)) {
+			var pc ProgCase
+			if err := json.Unmarshal(sc.Bytes(), &pc); err != nil {
+				fmt.Fprintln(os.Stderr, "bad program case:", err)
+				os.Exit(2)
+			}
+			progs = append(progs, pc)
+			continue
+		}
 		var c Case
 		if err := json.Unmarshal(sc.Bytes(), &c); err != nil {
 			fmt.Fprintln(os.Stderr, "bad case:", err)
 			os.Exit(2)
 		}
 		cases = append(cases, c)
+	}
+	if *corruptN > 0 {
+		runCorrupt(cases, progs, *corruptN, *seed, *out, *stats)
+		return
+	}
+	if len(progs) > 0 {
+		runProgs(progs, *out, *stats)
+		return
 	}
 	results := make([]Result, len(cases))
 	var wg sync.WaitGroup
@@ -456,4 +500,135 @@ func main() {
 	}
 	b, _ := json.MarshalIndent(st, "", " ")
 	os.WriteFile(*stats, b, 0o644)
+}
+
+func runProgs(progs []ProgCase, out, stats string) {
+	results := make([]map[string]any, len(progs))
+	var wg sync.WaitGroup
+	ch := make(chan int, 1024)
+	for w := 0; w < runtime.NumCPU(); w++ {
+		wg.Add(1)
+		go func() {
+			defer wg.Done()
+			for i := range ch {
+				results[i] = runProg(progs[i])
+			}
+		}()
+	}
+	for i := range progs {
+		ch <- i
+	}
+	close(ch)
+	wg.Wait()
+	of, err := os.Create(out)
+	if err != nil {
+		os.Exit(2)
+	}
+	w := bufio.NewWriterSize(of, 1<<20)
+	classes := map[string]int{}
+	texts := map[string]bool{}
+	for _, r := range results {
+		b, _ := json.Marshal(r)
+		w.Write(b)
+		w.WriteByte('\n')
+		classes[r["real"].(ProgOutcome).Class]++
+		texts[r["text"].(string)] = true
+	}
+	w.Flush()
+	of.Close()
+	st := map[string]any{"cases": len(progs), "distinct_programs": len(texts), "classes": classes, "mismatch_with_reference": 0}
+	if len(results) > 0 {
+		st["samples"] = []any{map[string]any{"text": results[len(results)/3]["text"], "real": results[len(results)/3]["real"]}}
+	}
+	b, _ := json.MarshalIndent(st, "", " ")
+	os.WriteFile(stats, b, 0o644)
+}
+
+// runCorrupt executes corrupted renderings; the result lines carry exp = real so that only
+// the C12 predicates (no panic, no hang, defined class, repeatable) can fail on them.
+func runCorrupt(cases []Case, progs []ProgCase, n int, seed int64, out, stats string) {
+	type job struct {
+		text string
+		vars map[string]string
+		bal  map[string]int64
+		meta []MetaEntry
+	}
+	rng := rand.New(rand.NewSource(seed))
+	var jobs []job
+	one := big.NewInt(1)
+	for len(jobs) < n && (len(cases) > 0 || len(progs) > 0) {
+		if len(progs) > 0 && (len(cases) == 0 || rng.Intn(2) == 0) {
+			pc := progs[rng.Intn(len(progs))]
+			text, vars := renderProg(pc.Prog)
+			if rng.Intn(4) == 0 && len(vars) > 0 { // corrupt a supplied variable value instead of the text
+				for k := range vars {
+					vars[k] = oddLiterals[rng.Intn(len(oddLiterals))]
+					break
+				}
+			} else {
+				text = corrupt(text, rng)
+				if rng.Intn(3) == 0 {
+					text = corrupt(text, rng)
+				}
+			}
+			jobs = append(jobs, job{text, vars, pc.Bal, pc.Meta})
+		} else {
+			c := cases[rng.Intn(len(cases))]
+			text := corrupt(render(c.Sends, one), rng)
+			if rng.Intn(3) == 0 {
+				text = corrupt(text, rng)
+			}
+			jobs = append(jobs, job{text, map[string]string{}, c.Bal, nil})
+		}
+	}
+	results := make([]map[string]any, len(jobs))
+	var wg sync.WaitGroup
+	ch := make(chan int, 1024)
+	for w := 0; w < runtime.NumCPU(); w++ {
+		wg.Add(1)
+		go func() {
+			defer wg.Done()
+			for i := range ch {
+				j := jobs[i]
+				run := func() Outcome {
+					v := map[string]string{}
+					for k, x := range j.vars {
+						v[k] = x
+					}
+					o, _ := outcomeOf(execute(j.text, v, progStore(j.bal, j.meta)), one)
+					return o
+				}
+				a, b := run(), run()
+				results[i] = map[string]any{"text": j.text, "vars": j.vars, "bal": j.bal, "sends": []SendStmt{}, "exp": a, "real": a,
+					"againSame": same(a, b), "scaledOk": true, "scaledBad": []Outcome{}, "scaledInexact": false, "kinds": "corrupted-text"}
+			}
+		}()
+	}
+	for i := range jobs {
+		ch <- i
+	}
+	close(ch)
+	wg.Wait()
+	of, err := os.Create(out)
+	if err != nil {
+		os.Exit(2)
+	}
+	w := bufio.NewWriterSize(of, 1<<20)
+	classes := map[string]int{}
+	texts := map[string]bool{}
+	for _, r := range results {
+		b, _ := json.Marshal(r)
+		w.Write(b)
+		w.WriteByte('\n')
+		classes[strings.SplitN(r["real"].(Outcome).Class, ":", 2)[0]]++
+		texts[r["text"].(string)] = true
+	}
+	w.Flush()
+	of.Close()
+	st := map[string]any{"cases": len(jobs), "distinct_programs": len(texts), "classes": classes, "mismatch_with_reference": 0}
+	if len(results) > 2 {
+		st["samples"] = []any{map[string]any{"text": results[1]["text"], "real": results[1]["real"]}, map[string]any{"text": results[2]["text"], "real": results[2]["real"]}}
+	}
+	b, _ := json.MarshalIndent(st, "", " ")
+	os.WriteFile(stats, b, 0o644)
 }
